@@ -36,6 +36,19 @@ def single_slot(d):
     return isinstance(d, PartHandler) and not isinstance(d, (Buffer, PartBatcher, Source))
 
 
+class GiveWrap:
+    """Instance-level wrapper of a device's give_part (an object, not a closure: it survives a deep copy)."""
+
+    def __init__(self, mon, dev, orig):
+        self.mon, self.dev, self.orig = mon, dev, orig
+
+    def __call__(self, part):
+        r = self.orig(part)
+        if r and not self.mon.probing:
+            self.mon.accepted[self.dev.name] = self.mon.accepted.get(self.dev.name, 0) + 1
+        return r
+
+
 class ProcRef:
     """Reference state machine of one PartProcessor, driven by observed callbacks (C06, C11, C13).
     Times are compared exactly on the dyadic grid (mon.tol == 0) and within mon.tol on decimal-time models."""
@@ -224,6 +237,7 @@ class Monitor:
         self.objs = {}
         self.occ = {}
         self.recv_cb = {}
+        self.accepted = {}
         self.prod_cb = {}
         self.c = {'events': 0, 'advances': 0, 'probes': 0, 'blocked_ready': 0, 'kept_reservation': 0,
                   'handovers_after_block': 0, 'contested': 0, 'prio_ties': 0, 'records': 0, 'trace_entries': 0}
@@ -245,6 +259,7 @@ class Monitor:
         self.supplied_seen = {}
         self.trace_on = bool(self.spec.get('trace')) and 'log' in self.on
         self.dispatched = []
+        self.tracing_now = True
         self._orig_step = self.env.step
         self.env.step = self.step
         self.req = {}
@@ -260,6 +275,7 @@ class Monitor:
                 self.refs[d.name] = ProcRef(self, d)
             if isinstance(d, PartHandler):
                 d.add_receive_part_callback(self.on_recv)
+                self.watch_acceptance(d)
             if isinstance(d, PartProcessor) and model.specs.get(d.name, {}).get('autoreset'):
                 # registered last: the machine restores itself from inside its shutdown callback after a failure
                 d.add_shutdown_callback(lambda m, f, p: m.restore_functionality() if (f and not self.probing) else None)
@@ -277,6 +293,11 @@ class Monitor:
                     # a restore (also one issued between two runs, outside any event) restarts the latest admissible
                     # reading of "idle since"
                     d.add_restored_callback(self.on_restored)
+
+    def watch_acceptance(self, d):
+        # an occurrence source that does not depend on the device's own receive path: the hand-over call returned True
+        if 'log' in self.on and not isinstance(d, Source) and not isinstance(getattr(d, 'give_part', None), GiveWrap):
+            d.give_part = GiveWrap(self, d, d.give_part)
 
     GROUP = {'C01': 'head', 'C02': 'cons', 'C03': 'wake', 'C05': 'buf', 'C06': 'cycle', 'C08': 'route', 'C11': 'res',
              'C13': 'acct', 'C15': 'log', 'C16': 'value', 'C17': 'batch'}
@@ -365,7 +386,11 @@ class Monitor:
         hist = part._routing_history
         if not hist or hist[-1] is not dev:
             self.bad('C08.history-tail', f'{part.name} accepted by {dev.name} at {now} but its routing history ends '
-                     f'with {[x.name for x in hist[-2:]]}')
+                     f'with {[getattr(x, "name", repr(x)) for x in hist[-2:]]}')
+        if any(not isinstance(x, PartFlowController) for x in hist):
+            self.bad('C08.history', f'the routing history of {part.name} contains entries that are not devices: '
+                     f'{[getattr(x, "name", repr(x)) for x in hist]} (a caller edited the list that routing_history '
+                     f'returned; that list must be a copy)')
         if dev.block_input:
             self.bad('C08.blocked-entry', f'{part.name} entered {dev.name} at {now} although its input is blocked')
         hist = (leaves(part) or [part])[0]._routing_history
@@ -477,7 +502,7 @@ class Monitor:
         if ev:
             self.minprio = min(self.minprio, ev[0].event_type)
         snap = list(ev) if 'head' in self.on else None
-        if self.trace_on and ev:
+        if self.trace_on and self.tracing_now and ev:
             e0 = ev[0]
             act = e0.action
             nm = getattr(act, '__name__', None) or getattr(getattr(act, 'func', None), '__name__', None)
@@ -563,6 +588,7 @@ class Monitor:
                     # counts from its creation
                     self.refs[d.name] = ProcRef(self, d)
                 d.add_receive_part_callback(self.on_recv)
+                self.watch_acceptance(d)
                 if single_slot(d):
                     self.idle[d.name] = [self.env.now, self.env.now, -1]
                     self.prev_empty[d.name] = True
@@ -791,6 +817,9 @@ class Monitor:
                 if got != self.recv_cb.get(d.name, []):
                     self.bad('C15.received', f'{d.name}: received_part records {got[-3:]} differ from the receive '
                              f'occurrences {self.recv_cb.get(d.name, [])[-3:]} ({now})')
+                if not isinstance(d, Source) and len(got) != self.accepted.get(d.name, 0):
+                    self.bad('C15.received', f'{d.name} accepted {self.accepted.get(d.name, 0)} hand-overs (give_part returned '
+                             f'True) but has {len(got)} received_part records ({now})')
             if isinstance(d, PartProcessor):
                 got = sd.get('produced_part', {}).get(d.name, [])
                 nrec += len(got)
@@ -1137,12 +1166,22 @@ class Monitor:
             old_home = os.environ.get('HOME')
             os.environ['HOME'] = home
             try:
+                # trace: True = every run is traced; a list = one flag per run (an untraced run after a traced one must
+                # neither extend the trace nor rewrite the file)
+                flags = self.spec['trace'] if isinstance(self.spec['trace'], list) else [True] * len(self.spec['T'])
+                path = os.path.join(home, 'Downloads', f'{self.env.name}_trace.json')
                 for i, d in enumerate(self.spec['T']):
-                    self.sys.simulate(d, trace=True, print_summary=False)
+                    self.tracing_now = bool(flags[i])
+                    self.sys.simulate(d, trace=bool(flags[i]), print_summary=False)
                     for f in (self.m.between.get(i, []) if i < len(self.spec['T']) - 1 else []):
                         f()
                     self.adopt_late_devices()
-                self.trace_check(os.path.join(home, 'Downloads', f'{self.env.name}_trace.json'))
+                    if flags[i]:
+                        self.trace_check(path)
+                    elif not any(flags[:i]) and os.path.exists(path):
+                        self.bad('C15.trace', f'simulate(trace=False) wrote a trace file')
+                if any(flags):
+                    self.trace_check(path)
             finally:
                 if old_home is None:
                     del os.environ['HOME']
